@@ -204,7 +204,8 @@ def run(chk):
     chk.rule("B4", "regdump extracts a field as (reg & mask) >> ctz(mask)")
     chk.trusted_base += ["sa/domains/bdd.py (ROBDD), sa/domains/bvexec.py (bit-vector transfer functions)",
                          "clang's constant folder for the _Static_assert witness"]
-    chk.assumptions += ["32-bit int / unsigned (ILP32 or LP64), as on every target the library supports"]
+    chk.assumptions += ["32-bit int / unsigned (ILP32 or LP64), as on every target the library supports",
+                        "if a helper converts through floating point: IEEE-754 binary32/binary64 and the default rounding mode (round to nearest even)"]
     m = build.load_unit("librfn/bitops.c")
     chk.note_unit(m)
     decide(chk, "B1.bitcnt", "bitcnt", m, "bitcnt", 32, spec_popcount)
